@@ -22,7 +22,54 @@ def shards(tier, seed):
         hi = NONZERO_HEIGHTS if i == NSHARD - 1 else (i + 1) * step
         out.append({"kind": "range", "lo": lo, "hi": hi})
     out.append({"kind": "edges", "tier": tier, "seed": seed})
+    out.append({"kind": "threads", "tier": tier, "seed": seed})
     return out
+
+
+def thread_lane(consensus, spec):
+    """two threads ask the schedule at once (the networking thread validating a peer's block, the miner thread building its
+    reward), in a process that has not looked at those heights before: thread A is held at each source location of the
+    consensus module it passes while thread B completes a call; every trial starts from the module state of a freshly started
+    process.  Both must get the documented subsidy, and so must every era boundary asked afterwards"""
+    from skv import preempt
+    rng = random.Random(spec["seed"] * 1000 + 161)
+    pre = preempt.Preempter([consensus])
+    if not pre.ok:
+        return {"evaluations": 0, "violations": [], "counters": {"thread_lane_tool_slot_taken": 1}}
+    state = preempt.ModuleState([consensus])
+    H = ref.HALVING_INTERVAL
+    probes = sorted({e * H + d for e in range(0, 67) for d in (-1, 0)} - {-1})
+    want = [ref.subsidy(h) for h in probes]
+
+    def schedule(_ctx):
+        return [consensus.get_block_subsidy(h) for h in probes]
+    viol, n, trials_run = [], 0, 0
+    eras = list(range(0, 66)) if spec["tier"] != "quick" else sorted(set([0, 1, 2, 3, 31, 32, 33, 62, 63, 64] + rng.sample(range(4, 62), 8)))
+    try:
+        for e in eras:
+            for (ha, hb) in ((e * H, e * H + 7), (e * H + 3, (e + 1) * H), ((e + 1) * H, e * H + 1), (e * H + H - 1, e * H + H - 1)):
+                ja = (lambda ctx, h=ha: consensus.get_block_subsidy(h))
+                jb = (lambda ctx, h=hb: consensus.get_block_subsidy(h))
+                for t in preempt.trials(pre, state, lambda: None, ja, jb, rng, 16, aftermath=schedule):
+                    trials_run += 1
+                    n += 4 + len(probes)
+                    w = {"kind": "threads", "height_a": ha, "height_b": hb, "switch_at_event": t["k"], "of_events": t["total"]}
+                    if t["want_a"] != ref.subsidy(ha) or t["want_b"] != ref.subsidy(hb) or t["want_aftermath"] != want:
+                        continue        # (single-threaded disagreement with the schedule: the edges shard reports it)
+                    for who, got, exp in preempt.disagreements(t):
+                        if isinstance(got, list):
+                            bad = [(probes[i], got[i], want[i]) for i in range(len(probes)) if got[i] != want[i]][:3]
+                            msg = "%s: after subsidy(%d) and subsidy(%d) were asked by two threads at once, the schedule is wrong at " \
+                                  "heights %s" % (who, ha, hb, ["subsidy(%d)=%r, documented %d" % x for x in bad])
+                        else:
+                            msg = "%s: subsidy asked by two threads at once (heights %d and %d, switch at event %d of %d): got %r, " \
+                                  "documented %r" % (who, ha, hb, t["k"], t["total"], got, exp)
+                        if len(viol) < 5:
+                            viol.append(_viol("subsidy-depends-on-another-threads-call", msg, w))
+    finally:
+        pre.close()
+    return {"evaluations": n, "distinct": trials_run, "violations": viol,
+            "counters": {"two_thread_trials": trials_run, "two_thread_eras": len(eras), "two_thread_locations_seen": len(pre.loc_uses)}}
 
 
 def _viol(key, msg, witness):
@@ -64,11 +111,15 @@ def run_shard(spec):
     f = consensus.get_block_subsidy
     if "replay" in spec:
         w = spec["replay"]
+        if w.get("kind") == "threads":
+            return thread_lane(consensus, {"tier": "thorough", "seed": 0})
         if w.get("kind") == "height":
             h = w["height"]
             v, *_ = run_range(max(0, h - 1), h + 1, f)
             return {"evaluations": 2, "violations": v, "distinct": 2}
         spec = {"kind": "edges", "tier": "quick", "seed": 0}
+    if spec["kind"] == "threads":
+        return thread_lane(consensus, spec)
     if spec["kind"] == "range":
         viol, total, n, nonzero, values = run_range(spec["lo"], spec["hi"], f)
         return {"evaluations": n, "distinct": nonzero, "violations": viol, "exhaustive": True,
@@ -304,6 +355,7 @@ def finalize(m, tier):
         "floors": [("heights_called", c.get("heights_called", 0), NONZERO_HEIGHTS),
                    ("nonzero_heights", c.get("nonzero_heights", 0), NONZERO_HEIGHTS),
                    ("reward_checks_at_probe_heights", c.get("reward_checks_at_probe_heights", 0), 2000),
-                   ("transaction_limit_cases", c.get("transaction_limit_cases", 0), 100)],
+                   ("transaction_limit_cases", c.get("transaction_limit_cases", 0), 100),
+                   ("two_thread_trials", c.get("two_thread_trials", 0), 200)],
         "extra": {"sum_of_subsidies_observed": total},
     }
